@@ -166,10 +166,19 @@ pub fn run_campaign(
             let obs2 = run_one(&cfg);
             rechecked = 1;
             if obs2.outcome.event_hash != obs.outcome.event_hash || obs2.outcome.steps != obs.outcome.steps {
-                mismatch = Some(format!(
-                    "run {}: event hash {:x}/{:x}, steps {}/{}",
-                    run, obs.outcome.event_hash, obs2.outcome.event_hash, obs.outcome.steps, obs2.outcome.steps
-                ));
+                // second opinion from two fresh processes (see `fresh_processes_agree`)
+                let f = recheck_file(&cfg.to_json().to_string());
+                let agree = fresh_processes_agree(&["child".into(), "ber-hash".into(), f.to_string_lossy().into_owned()]);
+                let _ = std::fs::remove_file(&f);
+                match agree {
+                    Ok(true) => local.inc("determinism: in-process re-execution differed, two fresh processes agreed (the code under test keeps state across runs)"),
+                    other => {
+                        mismatch = Some(format!(
+                            "run {}: event hash {:x}/{:x}, steps {}/{}; fresh processes: {:?}",
+                            run, obs.outcome.event_hash, obs2.outcome.event_hash, obs.outcome.steps, obs2.outcome.steps, other
+                        ))
+                    }
+                }
             }
         }
         let mut a = acc.lock().unwrap();
@@ -487,4 +496,13 @@ pub fn triage(
         out.push((path, vio.kind, vio.detail));
     }
     (out, known_out)
+}
+
+/// `verif child ber-hash <file>`: fingerprint of one simulated BER run in a fresh process.
+pub fn child_ber_hash(file: &str) -> ! {
+    let v: Value = serde_json::from_str(&std::fs::read_to_string(file).unwrap_or_default()).unwrap_or(Value::Null);
+    let cfg = BerCfg::from_json(&v).unwrap_or_else(|e| harness_error(&e));
+    let obs = run_one(&cfg);
+    println!("{:x} {}", obs.outcome.event_hash, obs.outcome.steps);
+    std::process::exit(0)
 }
